@@ -69,7 +69,7 @@ class World:
         hx = self.rng.choice([hx, hx.upper(), ''.join(c.upper() if self.rng.random() < 0.5 else c for c in hx)])
         return {'node_id_short': hx, 'signature': sig}
 
-    def run(self, weights, items, layout=False, parsed=False):
+    def run(self, weights, items, layout=False, parsed=False, history=False):
         if parsed:
             # the validator descriptors as the library's own parser hands them over (validator#53 / validator_addr#73 cells)
             from pytoniq_core.boc import Builder
@@ -87,7 +87,18 @@ class World:
             rec['bigw'] = [[(x >> (20 * (3 - j))) & 0xFFFFF for j in range(4)] for x in weights]
             rec['weights'] = [0] * len(weights)
         try:
-            check_block_signatures(nodes, [self.item(s, k) for s, k in items], self.blk)
+            its = [self.item(s, k) for s, k in items]
+            if history:
+                # earlier calls in the same process: the very same signature items presented for the block they DO sign (the
+                # 'other' block), and the valid ones for this block; what was verified before must not matter now
+                rec['tags'] = ['after_other_block_checked']
+                for blk2, want in ((self.other, 'other'), (self.blk, 'valid')):
+                    prior = [it for it, (s, k) in zip(its, items) if k == want and s]
+                    try:
+                        check_block_signatures(nodes, prior, blk2)
+                    except Exception:
+                        pass
+            check_block_signatures(nodes, its, self.blk)
             rec['out'] = {'ok': 1}
         except Exception as e:
             rec['out'] = {'err': type(e).__name__}
@@ -117,7 +128,7 @@ def generate(tier, seed, ctx):
                     p = 1.0 if L <= 2 else (0.12 if q else (0.5 if L == 3 else 0.02))
                     if rng.random() > p:
                         continue
-                    out.append(w.run(weights, items, layout=rng.random() < 0.01))
+                    out.append(w.run(weights, items, layout=rng.random() < 0.01, history=rng.random() < 0.25))
     # exactly two thirds, just above, just below, with larger sets
     for _ in range(60 if q else 1500):
         n = rng.randint(1, 12)
